@@ -42,6 +42,7 @@ static int has(fsg_pnode_ctxt_t *c, int ph) { return (c->bv[ph / 32] >> (ph % 32
 
 /* walk every root -> leaf path below node n (depth p) for the word of each leaf */
 static fsg_pnode_t *path[64];
+static int cur_state;
 static void walk(fsg_pnode_t *n, int p, fsg_link_t *only, int *found_rc /* [n_ci] or NULL */, int *nleaf)
 {
     int nci = bin_mdef_n_ciphone(mdef), q, x;
@@ -58,6 +59,9 @@ static void walk(fsg_pnode_t *n, int p, fsg_link_t *only, int *found_rc /* [n_ci
         int wid = dict_wordid(dict, w), len;
         if (only && fl != only) return;
         if (nleaf) (*nleaf)++;
+        /* structure ASSUMED by the word-arc contracts of C01 (harness/C01_wordarcs.c): a leaf's grammar arc leaves the
+         * state whose lextree holds the leaf */
+        if (!only) { cases++; if (fl->from_state != cur_state) { fails++; if (fails < 12) printf("FAIL lextree of state %d holds a leaf whose grammar arc leaves state %d; grammar %s\n", cur_state, fl->from_state, gdesc); } }
         if (wid < 0) { fails++; printf("FAIL lextree leaf for a word that is not in the dictionary: %s\n", w); return; }
         len = dict_pronlen(dict, wid);
         if (only) { /* coverage query: collect the right contexts this arc's leaves serve */
@@ -109,6 +113,7 @@ static void check_search(decoder_t *d)
     nci = bin_mdef_n_ciphone(mdef);
     for (s = 0; s < fsg_model_n_state(fsg); s++) {
         fsg_arciter_t *it;
+        cur_state = s;
         for (root = fsg_lextree_root(lt, s); root; root = root->sibling) walk(root, 0, NULL, NULL, NULL);
         /* coverage: every word arc x left context of s x right context of its destination is served */
         for (it = fsg_model_arcs(fsg, s); it; it = fsg_arciter_next(it)) {
